@@ -7,7 +7,7 @@ for d in seeded/$PAT/; do
   id=$(basename $d)
   git -C $WT checkout -q -- . ; git -C $WT checkout -q --detach main
   git -C $WT apply $PWD/$d/patch.diff || { echo -e "$id\tAPPLY-FAILED" >> $OUT; continue; }
-  res=$(for i in $(seq -w 1 20); do echo C$i; done | xargs -P 10 -I{} sh -c 'AHRS_REPO='$WT' ./check {} --tier quick > /tmp/ss.{}.log 2>&1; echo "{}:$?"' | sort | tr '\n' ' ')
+  res=$(for i in $(seq -w 1 20); do echo C$i; done | xargs -P 16 -I{} sh -c 'AHRS_REPO='$WT' ./check {} --tier quick > /tmp/ss.{}.log 2>&1; echo "{}:$?"' | sort | tr '\n' ' ')
   git -C $WT checkout -q -- .
   fired=$(echo $res | tr ' ' '\n' | grep ':1' | cut -d: -f1 | tr '\n' ',')
   broken=$(echo $res | tr ' ' '\n' | grep ':2' | cut -d: -f1 | tr '\n' ',')
